@@ -119,3 +119,78 @@ func c05ChainBody(x *engine.X) {
 func c05ChainDFS(tier string) *engine.DFS {
 	return &engine.DFS{Name: "post-chain@" + tier, Body: c05ChainBody, Procs: 4, MaxDeviations: 0, MaxPoints: 50, HangTimeout: 60 * time.Second}
 }
+
+// c05BulkBody — third family: many handlers queued before the loop runs (1 .. 1025, around the powers of two where a
+// batch limit would sit), one of them posting a last one while the batch runs. Everything is posted by one goroutine
+// (the program posts K handlers, then runs the loop on the same goroutine, so the late Post is that goroutine's too):
+// the handlers must run exactly once each, in the order 0, 1, ..., K, however many poll calls the loop needs.
+func c05BulkBody(x *engine.X) {
+	verifshim.Hooks = nil
+	ks := []int{1, 2, 63, 64, 65, 127, 128, 129, 130, 255, 256, 257, 300, 1024, 1025}
+	k := ks[x.Pick(len(ks), "handlers queued before the first poll")]
+	pollKind := x.Pick(4, "poll call: PollOne | RunOneFor(5ms) | RunOne | Poll")
+	lateFrom := []int{0, k / 2, k - 1}[x.Pick(3, "the handler that posts one more: first | middle | last")]
+	ioc, err := sonic.NewIO()
+	if err != nil {
+		engine.HarnessError("NewIO: %v", err)
+	}
+	x.Defer(func() { ioc.Close() })
+	var order []int
+	for i := 0; i < k; i++ {
+		i := i
+		if err := ioc.Post(func() {
+			order = append(order, i)
+			if i == lateFrom {
+				if err := ioc.Post(func() { order = append(order, k) }); err != nil {
+					x.FailSoft("post/bulk/Post-error", "Post from a posted handler: %v", err)
+				}
+			}
+		}); err != nil {
+			x.Fail("post/bulk/Post-error", "Post: %v", err)
+		}
+	}
+	if got := ioc.Posted(); got != k {
+		x.Fail("post/Posted-inexact", "Posted()=%d after %d Posts and before any poll", got, k)
+	}
+	if got := ioc.Pending(); got != int64(k) {
+		x.Fail("post/Pending-inexact", "Pending()=%d after %d Posts and before any poll", got, k)
+	}
+	calls := 0
+	for ; calls < k+8 && len(order) < k+1; calls++ {
+		switch pollKind {
+		case 0:
+			ioc.PollOne()
+		case 1:
+			ioc.RunOneFor(5 * time.Millisecond)
+		case 2:
+			ioc.RunOne()
+		case 3:
+			ioc.Poll()
+		}
+	}
+	x.Note("k=%d poll=%d late post from handler %d: %d poll calls, %d handlers ran", k, pollKind, lateFrom, calls, len(order))
+	x.Nontrivial()
+	if x.Failed() {
+		return
+	}
+	if len(order) != k+1 {
+		x.Fail("post/handler-count", "%d handlers were posted, %d ran in %d poll calls", k+1, len(order), calls)
+	}
+	for i, id := range order {
+		if id != i {
+			lo, hi := max(0, i-3), min(len(order), i+4)
+			x.Fail("post/order", "handlers posted by one goroutine ran out of order: position %d ran handler %d (positions %d..%d: %v; %d queued before the first poll, the last posted from handler %d)", i, id, lo, hi-1, order[lo:hi], k, lateFrom)
+		}
+	}
+	if got := ioc.Posted(); got != 0 {
+		x.Fail("post/Posted-inexact", "Posted()=%d after every handler ran", got)
+	}
+	if got := ioc.Pending(); got != 0 {
+		x.Fail("post/Pending-inexact", "Pending()=%d after every handler ran", got)
+	}
+	x.Outcome(fmt.Sprintf("bulk/%d/calls%d", k, calls))
+}
+
+func c05BulkDFS(tier string) *engine.DFS {
+	return &engine.DFS{Name: "post-bulk@" + tier, Body: c05BulkBody, Procs: 4, MaxDeviations: 0, MaxPoints: 50, HangTimeout: 60 * time.Second}
+}
